@@ -121,6 +121,19 @@ func (s *walletSessionManager) getSession(authToken string) (*Session, error) {
 	return session, nil
 }
 
+// ownedByOther tells whether given auth token belongs to a live session of a user other than the given one.
+// The session is only looked up, its expiry is not extended.
+func (s *walletSessionManager) ownedByOther(authToken, userID string) bool {
+	sess, err := s.gstore.Get(authToken)
+	if err != nil {
+		return false
+	}
+
+	session, ok := sess.(*Session)
+
+	return ok && session.user != userID
+}
+
 func wrapSessionError(err error) error {
 	if errors.Is(err, ErrInvalidAuthToken) {
 		return ErrWalletLocked
